@@ -120,6 +120,11 @@ def run(ctx):
                 extra = dict(env)
                 for j in range(rnd.randint(1, 4)):
                     name = rnd.choice(["extra", "zzz", "uid2", "salt_", "weights", "population", "key", "_", "Extra", "x" * 40]) + str(j)
+                    if rnd.random() < 0.4:
+                        # a wide record may well have columns called like this; DSL keywords cannot be declared fields, so
+                        # they can only ever arrive as extras
+                        name = rnd.choice(["salt", "key", "weights", "population", "cum_weights", "input_id", "k", "w", "args", "kwargs", "self",
+                                           "splitters", "def", "weighted", "experiment", "name", "seed", "choose_experiment_variant", "partial"])
                     if name not in declared:
                         extra[name] = rnd.choice(SPLITTER_VALUES + [(1, 2), [3], {"a": 1}])
                 same("extra-kwargs", im.call(ev, extra), dict(extra=[k for k in extra if k not in env]), probe.last_key)
